@@ -20,6 +20,7 @@ var srvDevKinds = []string{
 	"none", "drop-hdr", "dup-hdr", "hdr-after-msg", "drop-msg-first", "drop-msg-cont", "dup-msg", "envelope-inside", "data-plus1", "data-plus1-noclose", "envelope-inside-noclose", "envelope-after-empty-chunk", "overrun-one-frame", "size-plus1", "size-minus1", "size-64MiB", "size-max",
 	"dup-close", "frame-after-close", "settings-on-stream", "empty-frame", "retarget-unknown-id", "retarget-negative-id", "retarget-finished-id",
 	"win-absurd", "win-zero", "overrun", "no-response", "two-responses", "close-error", "close-first", "big-chunk",
+	"preamble-id0", "preamble-negative", "preamble-settings-again", "preamble-unknown",
 }
 
 var srvShapes = []string{"Unary", "ClientStream", "ServerStream", "Bidi"}
@@ -69,6 +70,7 @@ func famRawSrv(w *World, c *Case, rng *rand.Rand) {
 	frames = append(frames, sClose(0, 0, "", trl))
 	nmsgs := 1
 	expect := "clean" // clean, fail, any, tunnel-dead, rexhausted
+	var preamble []*tunnelpb.ServerToClient
 	sentComplete := map[int]bool{len(payload): true}
 	switch kind {
 	case "none":
@@ -164,6 +166,17 @@ func famRawSrv(w *World, c *Case, rng *rand.Rand) {
 	case "retarget-finished-id":
 		// id of the finished "fin" stream is 0 in every run (first RPC): mark with -2 -> rewritten below
 		frames = append([]*tunnelpb.ServerToClient{frames[0], {StreamId: -1000, Frame: sMsg(0, 1, []byte{1}).Frame}}, frames[1:]...)
+	case "preamble-id0", "preamble-negative", "preamble-settings-again", "preamble-unknown":
+		// a frame for a stream that was never created arrives right after the settings, before the
+		// caller's side has created its first stream
+		f := &tunnelpb.ServerToClient{StreamId: map[string]int64{"preamble-id0": 0, "preamble-negative": -7, "preamble-settings-again": -1, "preamble-unknown": 3}[kind], Frame: sMsg(0, 1, []byte{1}).Frame}
+		if kind == "preamble-settings-again" {
+			f.Frame = sSettings(-1, 65536, 0, 1).Frame
+		} else if rng.Intn(2) == 0 {
+			f.Frame = sClose(0, 0, "", nil).Frame
+		}
+		preamble = append(preamble, f)
+		expect = "tunnel-dead"
 	case "win-absurd":
 		frames = append([]*tunnelpb.ServerToClient{sWin(0, 0xffffffff), sWin(0, 0xffffffff), sWin(0, 1)}, frames...)
 	case "win-zero":
@@ -207,7 +220,23 @@ func famRawSrv(w *World, c *Case, rng *rand.Rand) {
 		"by":  {OnNew: []*tunnelpb.ServerToClient{sHdr(0, metadata.MD{"by": {"1"}})}, OnHalf: []*tunnelpb.ServerToClient{sMsg(0, 17, wrapBytes(GenPayload("by", dirResp, 0, 15))), sClose(0, 0, "", metadata.MD{"byt": {"1"}})}},
 		"v":   {OnHalf: frames},
 	}
-	rs, ch, err := w.OpenRawServer(RawServerOpts{Advertise: true, Preamble: []*tunnelpb.ServerToClient{sSettings(-1, 65536, 0, 1)}}, progs)
+	rs, ch, err := w.OpenRawServer(RawServerOpts{Advertise: true, Preamble: append([]*tunnelpb.ServerToClient{sSettings(-1, 65536, 0, 1)}, preamble...)}, progs)
+	if len(preamble) > 0 && ch == nil && w.Cfg.Dir == "reverse" && len(w.Conn.Links()) > 0 {
+		// the reverse tunnel was gone again before it could be looked up in the registry: the
+		// handler's call must have returned, with an error
+		e, done := w.Conn.Links()[0].ServerReturn()
+		w.Stat("rawsrv_expect_dead", 1)
+		w.Stat("rawsrv_conversations", 1)
+		if !done {
+			w.Violate("C09", "client-tunnel-level-violation-not-fatal", "raw server deviation %s: frame for a stream id never allocated did not end the tunnel", kind)
+		} else if e == nil {
+			w.Violate("C09", "client-tunnel-level-violation-nil-error", "raw server deviation %s ended the tunnel but the serving call returned a nil error", kind)
+		}
+		rs.End(nil)
+		w.Advance(time.Second)
+		w.Finish()
+		return
+	}
 	if err != nil || ch == nil {
 		w.Violate("C09", "raw-open-failed", "real client could not open the tunnel against a conforming raw server: %v", err)
 		w.Finish()
